@@ -483,3 +483,99 @@ Theorem C09_chain_wide : forall c b toks names ext, wline c b toks names ext ->
   end.
 Proof. exact chain_of_wline. Qed.
 Print Assumptions C09_chain_wide.
+
+(** what Chain.v assumed of the selected children ([canonical]: first child with its name, its name
+    resolves to it) is what the validity gate [assert_app] guarantees (unique names and aliases) *)
+Theorem C09_canonical_from_valid : forall c n sc0,
+  assert_app c = true -> find_subcommand c n = Some sc0 -> canonical c sc0.
+Proof. exact canonical_of_assert. Qed.
+Print Assumptions C09_canonical_from_valid.
+
+(** [C09_chain_globals] for the wide class and WITHOUT the [canonical] premise: [_do_parse] ran the gate
+    on the root ([valid c0], else no [OOk]) and the parser ran it on every child it descended into, so
+    [find_subcommand], [_build_subcommand] and [get_used_global_args] agree on every level of the line *)
+Theorem C09_chain_globals_wide : forall c0 toks names ext m',
+  wline (build_self c0) false toks names ext -> is_set s_ignore_errors (build_self c0) = false ->
+  do_parse c0 toks = OOk m' ->
+  exists m globals,
+    m' = fst (filled (S (matches_depth m)) globals m) /\
+    globals = used_global_args (S (matches_depth m)) (build_recursive (S (S (depth (build_self c0)))) c0) m /\
+    chain m = names /\ chain m' = names /\ length (levels m') = S (length names) /\
+    match ext with Some vals => deepest m = [(ext_id, ext_marg vals)] | None => True end /\
+    (forall lc a, In lc (lazy_cmds (build_self c0) (real_names names ext)) -> In a (c_args lc) -> a_global a = true ->
+       mem_id (a_id a) globals = true) /\
+    (forall g e0, mem_id g globals = true -> In (Some e0) (map (fm_get g) (levels m)) ->
+       exists e,
+         (forall lv, In lv (levels m') -> fm_get g lv = Some e) /\
+         In (Some e) (map (fm_get g) (levels m)) /\
+         mrank e0 <= mrank e /\
+         (m_source e0 = Some SCmdLine -> m_source e = Some SCmdLine)).
+Proof. exact do_parse_wline. Qed.
+Print Assumptions C09_chain_globals_wide.
+
+(** a user-defined subcommand named `help` with [disable_help_subcommand]: the word `help` selects it like
+    any other name ([nsel], so [C09_chain_wide] / [C09_chain_globals_wide] run through it) … *)
+Theorem C09_user_help_selected : forall c sc0,
+  is_set s_disable_help_sub c = true -> is_set s_infer_sub c = false ->
+  find_subcommand c s_help = Some sc0 -> nsel c s_help (c_name sc0).
+Proof. exact user_help_selected. Qed.
+Print Assumptions C09_user_help_selected.
+
+(** … and [_propagate_global_args] copies every global argument of the parent into it (the
+    [autogenerated_help] guard is off) *)
+Theorem C09_user_help_globals : forall c0 g sc',
+  s_built (c_set c0) = false -> is_set s_disable_help_sub (build_self c0) = true ->
+  has_global (build_self c0) g -> In sc' (c_subs (build_self c0)) -> c_name sc' = s_help ->
+  exists a', find_arg sc' g = Some a'.
+Proof. exact user_help_globals. Qed.
+Print Assumptions C09_user_help_globals.
+
+(** level isolation, one level of the wide class, as an equation and on the entries ([psel]: selection by
+    name — also inferred —, `--sub`, or a name behind multi-values with precedence) *)
+Theorem C09_level_isolation_wide : forall c pre F pst pos tok n f,
+  wprefix c false pre F pst pos -> psel c pst tok n -> is_set s_args_negate_subs c = false ->
+  forall rest st0, fs_skip st0 = 0 ->
+  get_matches_with (S f) c (pre ++ tok :: rest) st0 =
+  post c (do st' <- F st0; after_sub f c n false (negb (is_nil pre)) st' rest).
+Proof. exact wlevel_step. Qed.
+Print Assumptions C09_level_isolation_wide.
+
+(** level isolation at EVERY depth: [wsplit c toks names lv] splits the line into (definition, tokens) per
+    level; the entries the parser reports at level j are exactly [own_entries c_j toks_j] — what the tokens
+    of level j ALONE produce against the definition of level j (token loop from a fresh state, pending
+    occurrence, environment, defaults) *)
+Theorem C09_levels_own_entries : forall c toks names lv, wsplit c toks names lv ->
+  forall f st, get_matches_with f c toks ps_new = ROk st ->
+  map Some (levels (into_inner (mt st))) = map (fun p => own_entries (fst p) (snd p)) lv.
+Proof. exact levels_of_wsplit. Qed.
+Print Assumptions C09_levels_own_entries.
+
+Theorem C09_wsplit_is_wline : forall c toks names lv, wsplit c toks names lv -> wline c false toks names None.
+Proof. exact wsplit_wline. Qed.
+Print Assumptions C09_wsplit_is_wline.
+
+(** a global given explicitly at several levels, merge level: the command-line entry of the DEEPEST level
+    that has one is reported by every level of the result, whatever the levels above hold *)
+Theorem C09_deepest_explicit_wins : forall fuel globals m g l1 e l2,
+  (matches_depth m <= fuel)%nat -> mem_id g globals = true ->
+  map (fm_get g) (levels m) = l1 ++ Some e :: l2 ->
+  m_source e = Some SCmdLine ->
+  (forall e', In (Some e') l2 -> m_source e' <> Some SCmdLine) ->
+  forall lv, In lv (levels (fst (filled fuel globals m))) -> fm_get g lv = Some e.
+Proof. exact deepest_explicit_wins. Qed.
+Print Assumptions C09_deepest_explicit_wins.
+
+(** … and on the line: WHICH occurrence wins.  Level j = the deepest level whose own tokens produce a
+    command-line entry [e] for the global [g]; every level of the final matches reports [e] — the values
+    given at level j — also where levels above j gave other values *)
+Theorem C09_deepest_explicit_line : forall c0 toks names lv m' g l1 cj prej l2 ownj e,
+  wsplit (build_self c0) toks names lv -> is_set s_ignore_errors (build_self c0) = false ->
+  do_parse c0 toks = OOk m' ->
+  (exists lc a, In lc (lazy_cmds (build_self c0) names) /\ In a (c_args lc) /\ a_global a = true /\ a_id a = g) ->
+  lv = l1 ++ (cj, prej) :: l2 -> own_entries cj prej = Some ownj -> fm_get g ownj = Some e ->
+  m_source e = Some SCmdLine ->
+  (forall c' p' own' e', In (c', p') l2 -> own_entries c' p' = Some own' -> fm_get g own' = Some e' ->
+     m_source e' <> Some SCmdLine) ->
+  forall lvl, In lvl (levels m') -> fm_get g lvl = Some e.
+Proof. exact deepest_explicit_line. Qed.
+Print Assumptions C09_deepest_explicit_line.
